@@ -22,7 +22,13 @@
  * Robustness: never reads outside nodes_a/nodes_b/weights[0..n_edges) nor writes outside mates[0..n_nodes); edges with
  * an endpoint outside [0, n_nodes) and self loops are ignored; when no perfect matching exists, n_nodes is odd or
  * n_nodes > QV_MAXN every mates[i] is set to -1.
+ *
+ * Trace (used to tie the Lean model of the wrapper, Model/Blossom5.lean, to the real wrapper): when the environment
+ * variable QV_PYPM_TRACE names a file, every call of mwpm appends ONE line to it after the answer is in place:
+ *     <n_nodes> <n_edges>|<nodes_a ...>|<nodes_b ...>|<weights ...>|<mates ...>
+ * (space separated ints; exactly what arrived through the C ABI and what is left in mates[0..n_nodes)).
  */
+#include <stdio.h>
 #include <stdlib.h>
 #include <limits.h>
 
@@ -33,7 +39,7 @@
 
 int infty(void) { return QV_INFTY; }
 
-void mwpm(int n_nodes, int *mates, int n_edges, int *nodes_a, int *nodes_b, int *weights) {
+static void qv_mwpm(int n_nodes, int *mates, int n_edges, int *nodes_a, int *nodes_b, int *weights) {
     int i, e, ok;
     size_t s, full, n_states;
     long long *best;
@@ -76,4 +82,25 @@ void mwpm(int n_nodes, int *mates, int n_edges, int *nodes_a, int *nodes_b, int 
     }
     if (ok) for (i = 0; i < n_nodes; i++) mates[i] = tmp[i];
     free(best); free(via); free(tmp);
+}
+
+static void qv_ints(FILE *f, const int *v, int n) {
+    int i;
+    for (i = 0; i < n; i++) fprintf(f, i ? " %d" : "%d", v[i]);
+}
+
+void mwpm(int n_nodes, int *mates, int n_edges, int *nodes_a, int *nodes_b, int *weights) {
+    const char *path;
+    FILE *f;
+    qv_mwpm(n_nodes, mates, n_edges, nodes_a, nodes_b, weights);
+    path = getenv("QV_PYPM_TRACE");
+    if (!path || !*path) return;
+    f = fopen(path, "a");
+    if (!f) return;
+    fprintf(f, "%d %d|", n_nodes, n_edges);
+    qv_ints(f, nodes_a, n_edges > 0 ? n_edges : 0); fputc('|', f);
+    qv_ints(f, nodes_b, n_edges > 0 ? n_edges : 0); fputc('|', f);
+    qv_ints(f, weights, n_edges > 0 ? n_edges : 0); fputc('|', f);
+    qv_ints(f, mates, n_nodes > 0 ? n_nodes : 0); fputc('\n', f);
+    fclose(f);
 }
